@@ -167,7 +167,11 @@ def obligations(tier, seed):
     obs.append(Obligation("cycle-cut", ob_cycle_cut, {}, hard_timeout=400, sample={"texts": INERT}))
     sks = poolfam.pool_skeletons(tier, seed) + poolfam.direct_edit_skeletons() + poolfam.swap_skeletons()
     if quick:
-        sks = rnd.sample(sks, 45) + poolfam.swap_skeletons()[:10]
+        from vk import rulefam
+
+        # the layout / tricky programs always (interplay of text-level stages and of rule pairs), the rest sampled
+        sks = rnd.sample(sks, 45) + poolfam.swap_skeletons()[:10] + rulefam.layout_skeletons() + rulefam.tricky_skeletons()
+        sks = list({sk.sid: sk for sk in sks}.values())
     for sk in sks:
         for tr in ("format_code:safe=0", "format_code:safe=1"):
             if quick and tr.endswith("1") and rnd.random() < 0.5:
